@@ -87,11 +87,6 @@ func calculate(doc billable) error {
 		rr = r.GetRoundingRule()
 	}
 
-	// Do we need to deal with the customer-rates tag?
-	if doc.HasTags(tax.TagCustomerRates) {
-		applyCustomerRates(doc)
-	}
-
 	// Complements
 	if err := calculateComplements(doc.getComplements()); err != nil {
 		return validation.Errors{"complements": err}
@@ -261,7 +256,13 @@ func removeIncludedTaxes(doc billable) error {
 	return nil
 }
 
+// applyCustomerRates deals with the customer-rates tag by setting the customer's
+// country in all the tax combos. This must happen before normalization, as the
+// normalizers of regimes and addons may depend on the combo's country.
 func applyCustomerRates(doc billable) {
+	if !doc.HasTags(tax.TagCustomerRates) {
+		return
+	}
 	if doc.getCustomer() == nil || doc.getCustomer().TaxID == nil {
 		return
 	}
